@@ -30,6 +30,18 @@ one large generate {1023,1024,1025,4096,4097,5000} as first or middle event, or
 {65537,100000} as first event (shape None), followed by every small request; extra
 differentials: ONE request and 500-sample chunks from an identically seeded twin.
 
+Lifecycle part (both tiers): the generator is obtained through get_similar_fading_generator()
+of a parent at positions 1, 8, 1e6+1, 3501, or through the shape setter after generate(7) /
+skip(1e6), or the constructor; a second live generator (the parent, else an independent one)
+is used alternately (b_generate / b_skip; a request on one object must leave the digest of the
+other unchanged); invalid requests generate(2.5 / "3"), skip(None), shape = "x" / (-1,) / (2.5,)
+must - if they raise - leave the object field-for-field unchanged (later requests are then
+checked by the usual oracle); generate(0 / -1), skip(-5) are outside the domain: accepted ->
+terminal state, only recorded.  Depth 3 (thorough 4), 2 configurations x 7 roots.
+Function part: generate_jakes_samples with explicit current_time (6 start positions x chains of
+two calls, n in {1,7,100,4097}) - shape, returned time, values.  RayleighSampleGenerator: shape /
+count clause only (generate, skip, shape setter, get_similar_fading_generator).
+
 Known on the unchanged tree (genuine defect, signature
 generate_more_samples|ValueError_time_vector_has_n+1_entries|position>=1e6):
 np.arange(t0, t0+n*Ts, Ts*1.0000000001) has n+1 entries once t0/Ts >~ 2e6.
@@ -51,7 +63,11 @@ RULE = ("per configuration (Fd, Ts, L, shape; Fd*Ts <= 0.5; seeded RandomState) 
         "position; oracle = Jakes sum of sinusoids at t=(k+i)Ts with the phases read back after "
         "construction + shape + one-request / one-skip differential + Fd=0 constancy + |h|<=sqrt(L); "
         "block part: one large request (1023..100000, around plausible block sizes) as first or middle "
-        "event followed by small requests, + twin differential in ONE request and in 500-sample chunks. "
+        "event followed by small requests, + twin differential in ONE request and in 500-sample chunks; "
+        "lifecycle part: generators obtained by get_similar_fading_generator() of a running parent / the "
+        "shape setter / the constructor, a second live generator used alternately, invalid requests that "
+        "must leave the object unchanged when they raise; generate_jakes_samples with explicit "
+        "current_time; RayleighSampleGenerator shape/count. "
         "A case is non-trivial when it is a generate at position > 1 with Fd > 0 whose value "
         "tolerance is below 1e-3*sqrt(L); distinct = distinct (configuration, start position, n)")
 
@@ -429,7 +445,11 @@ def life_configs(seed, thorough):
 
 
 def _digest(g):
-    return (bfs.digest(vars(g), 13), float_fields(g))
+    # the random source is not part of the process state (and may be the numpy.random module itself)
+    import types
+    d = {k: v for k, v in vars(g).items()
+         if not isinstance(v, (types.ModuleType, np.random.RandomState))}
+    return (bfs.digest(d, 13), float_fields(g))
 
 
 class LState:
